@@ -60,6 +60,11 @@ type HeapEnv struct {
 func (h *HeapEnv) cur(st *State, fam string, so Sort) Term {
 	h.sorts[fam] = so
 	if h.immutable != nil && h.immutable(fam) {
+		// an immutable family is never written at objects that exist already; the only versions are the
+		// initialising stores of objects this activation allocated itself, which no havoc removes
+		if t, ok := st.heap[fam]; ok {
+			return t
+		}
 		return h.sc.DeclareConst(fam+"@imm", so)
 	}
 	if t, ok := st.heap[fam]; ok {
@@ -112,7 +117,15 @@ func (h *HeapEnv) havocFamFresh(st *State, fam string, so Sort, bound Term) {
 func (h *HeapEnv) havocAll(st *State) {
 	h.nepoch++
 	st.epoch = h.nepoch
-	st.heap = map[string]Term{}
+	keep := map[string]Term{}
+	if h.immutable != nil {
+		for fam, t := range st.heap {
+			if h.immutable(fam) {
+				keep[fam] = t
+			}
+		}
+	}
+	st.heap = keep
 }
 
 func (h *HeapEnv) get(st *State, fam string, so Sort) Term { return h.cur(st, fam, so) }
@@ -159,7 +172,16 @@ func (h *HeapEnv) merge(ins []edgeState) *State {
 	for _, fam := range names {
 		so := h.sorts[fam]
 		if h.immutable != nil && h.immutable(fam) {
-			continue
+			// merged like any other family when some predecessor initialised an object of its own
+			any := false
+			for _, e := range ins {
+				if _, ok := e.st.heap[fam]; ok {
+					any = true
+				}
+			}
+			if !any {
+				continue
+			}
 		}
 		vers := make([]Term, len(ins))
 		same := true
